@@ -5,8 +5,11 @@ then runs the named checks (default: the property's own) against the changed tre
 import subprocess, sys, os, shutil, json, hashlib, time
 
 def sh(cmd, cwd=None, env=None, timeout=3600):
-    e = dict(os.environ, CARGO_NET_OFFLINE="true", TMPDIR="/tmp/seedchk-tmp")
-    os.makedirs("/tmp/seedchk-tmp", exist_ok=True)
+    # one temp dir per evaluated seed: the suite's tests use fixed directory names under TMPDIR, so two
+    # evaluations running at the same time must not share it
+    tmpd = "/tmp/seedchk-tmp-" + (sys.argv[1] if len(sys.argv) > 1 else "x")
+    e = dict(os.environ, CARGO_NET_OFFLINE="true", TMPDIR=tmpd)
+    os.makedirs(tmpd, exist_ok=True)
     if env: e.update(env)
     r = subprocess.run(cmd, shell=True, cwd=cwd, env=e, text=True, capture_output=True, timeout=timeout)
     return r.returncode, r.stdout + r.stderr
@@ -96,5 +99,6 @@ def main():
         shutil.rmtree(wt, ignore_errors=True)
         tag = hashlib.md5(wt.encode()).hexdigest()[:10]
         shutil.rmtree(f"/tmp/pv-shadow-{tag}", ignore_errors=True)
+        shutil.rmtree("/tmp/seedchk-tmp-" + name, ignore_errors=True)
 
 main()
